@@ -71,6 +71,14 @@ func genOverlapSteps(r *gen.Rand, cfg tcfg) []tstep {
 				st.Mode = gen.Pick(r, qualifying)
 			}
 		}
+		if !st.Async && r.Chance(1, 10) {
+			// a KeyGenerator that takes its time (a lookup) while other requests go on
+			ms := gen.Pick(r, []int{1000, 1000, 2000, E * 1000, (E + 1) * 1000, 2 * E * 1000})
+			st.Async, st.KeyDelayMs = true, ms+100
+			if r.Bool() {
+				st.KeyDelayMs = ms - 400
+			}
+		}
 		if cfg.NKeys > 1 && r.Chance(1, 8) {
 			st.Rekey = (key+r.Range(1, cfg.NKeys-1))%cfg.NKeys + 1 // another key
 		}
